@@ -46,6 +46,12 @@ def main():
         # an application that lowers the interpreter's integer-string limit (to its minimum) after the library was imported
         sys.set_int_max_str_digits(640)
 
+    if "reentrant-logging" in os.environ.get("VERIF_ENV_PREPARE", ""):
+        import mc
+
+        mc.REENTRY["ref"] = mc.reentry_probe()  # (what the probe gives alone, before any other call)
+        mc.REENTRY["on"] = True
+
     accs = []
     for n, shard in enumerate(shards):
         idx, acc = engine._worker((modname, n, engine._tuplify(shard), tier, int(seed)))
